@@ -134,7 +134,18 @@ pub fn check_c04(case: &Case, st: &mut Stats) -> Result<(), Violation> {
                 let msg = format!("pixel #{i} {:?} component {j}: got {:e}, opsin definition gives {:e} (|diff| {:e} > {:e}) in {}x{} image", p, got[j], want[j], d, TOL_C04, case.w, case.h);
                 let single = LinearRgb::new(vec![*p], 1, 1).map(Xyb::from).map(|x| x.data()[0]);
                 let single_bad = single.map(|s| (f64::from(s[j]) - want[j]).abs() > TOL_C04).unwrap_or(true);
-                return Err(if single_bad { fail(msg, &[*p], 1, 1) } else { fail(msg, &px, case.w, case.h) });
+                if single_bad {
+                    let bad = |q: [f32; 3]| -> bool {
+                        c04_in_domain(q)
+                            && LinearRgb::new(vec![q], 1, 1).map(Xyb::from).map(|x| {
+                                let w = oracle::lrgb_to_xyb([q[0] as f64, q[1] as f64, q[2] as f64]);
+                                (0..3).any(|k| !((f64::from(x.data()[0][k]) - w[k]).abs() <= TOL_C04))
+                            }).unwrap_or(false)
+                    };
+                    let small = minimize_px(*p, -1.0, 4.0, bad);
+                    return Err(fail(format!("{msg}; shrunk reproduction {:?}", small), &[small], 1, 1));
+                }
+                return Err(fail(msg, &px, case.w, case.h));
             }
             st.max("max_abs_err", d);
         }
@@ -186,7 +197,17 @@ pub fn check_c05(case: &Case, st: &mut Stats) -> Result<(), Violation> {
                     Ok(Ok(s)) => (f64::from(s.data()[0][j]) - f64::from(p[j])).abs() > TOL_C05,
                     _ => true,
                 };
-                return Err(if single_bad { fail(msg, &[*p], 1, 1) } else { fail(msg, &px, case.w, case.h) });
+                if single_bad {
+                    let bad = |q: [f32; 3]| -> bool {
+                        match catch(|| rt(&[q], 1, 1)) {
+                            Ok(Ok(s)) => (0..3).any(|k| !((f64::from(s.data()[0][k]) - f64::from(q[k])).abs() <= TOL_C05)),
+                            _ => false,
+                        }
+                    };
+                    let small = minimize_px(*p, 0.0, 1.0, bad);
+                    return Err(fail(format!("{msg}; shrunk reproduction {:?}", small), &[small], 1, 1));
+                }
+                return Err(fail(msg, &px, case.w, case.h));
             }
             st.max("max_roundtrip_err", d);
         }
@@ -239,19 +260,19 @@ fn lattice(ctx: &Ctx, st: &mut Stats, side: usize, hi: f64, chk: fn(&Case, &mut 
 }
 
 pub fn run_c04(ctx: &Ctx, st: &mut Stats) -> Vec<Violation> {
-    let mut v = run_proptest(ctx, st, "random", ctx.pick(20000, 600000), strategy, check_c04);
+    let mut v = run_proptest(ctx, st, "random", ctx.cases(100_000, 1_000_000), strategy, check_c04);
     if !v.is_empty() {
         return v;
     }
-    v.extend(lattice(ctx, st, ctx.pick(64, 200), 4.0, check_c04));
+    v.extend(lattice(ctx, st, if ctx.light { 32 } else { ctx.pick(96, 200) }, 4.0, check_c04));
     v
 }
 pub fn run_c05(ctx: &Ctx, st: &mut Stats) -> Vec<Violation> {
-    let mut v = run_proptest(ctx, st, "random", ctx.pick(20000, 600000), strategy, check_c05);
+    let mut v = run_proptest(ctx, st, "random", ctx.cases(100_000, 1_000_000), strategy, check_c05);
     if !v.is_empty() {
         return v;
     }
-    v.extend(lattice(ctx, st, ctx.pick(96, 512), 1.0, check_c05));
+    v.extend(lattice(ctx, st, if ctx.light { 48 } else { ctx.pick(128, 512) }, 1.0, check_c05));
     v
 }
 
